@@ -157,6 +157,7 @@ def main(argv=None):
 
     violations = []
     known_lines = []
+    known_obligations = set()      # obligations that fail and are listed (and re-confirmed) as known findings: not part of the proof claim
     # --- guard: every dependency name a function under contract evaluates resolves in the repo's runtime
     mods = {}
     for info in S.functions.values():
@@ -197,6 +198,7 @@ def main(argv=None):
                           "payload": replay_res.get("replay_payload", payload)}
         if name in known_names and (native or not rp or known_names[name].get("no_input")):
             known_lines.append("KNOWN-FINDING: property=%s %s: %s" % (prop, name, known_names[name].get("what", "")))
+            known_obligations.add(name)
             continue
         path = write_replay(prop, name, {"property": prop, "obligation": name, "solver": solver_info,
                                          "native": native, "observed": replay_res})
@@ -217,8 +219,8 @@ def main(argv=None):
                                          "observed": fl})
         violations.append((name, path, True))
 
-    n_obl = len([o for o in obs])
-    n_dis = len([o for o in obs if o.meta['result']['verdict'] == "valid"])
+    n_obl = len([o for o in obs if o.name not in known_obligations])
+    n_dis = len([o for o in obs if o.meta['result']['verdict'] == "valid" and o.name not in known_obligations])
     per_backend = {}
     for o in obs:
         r = o.meta['result']
@@ -266,6 +268,7 @@ def main(argv=None):
                        "canaries": len([o for o in obs if o.expect == "fail"])},
             "undecided": undecided,
             "known_findings_reported": known_lines,
+            "known_finding_obligations": sorted(known_obligations),
             "notes": S.notes,
         },
         "assumptions": S.assumptions + getattr(mod, "ASSUMPTIONS", []),
